@@ -287,7 +287,7 @@ def generic_case(col, r, idx):
             continue
         before = read_all(m)
         cls = type(m)
-        ordinal = [x for _, x in walker.tree_models(f) if type(x) is cls].index(m)
+        ordinal = next(i for i, x in enumerate(x for _, x in walker.tree_models(f) if type(x) is cls) if x is m)   # by identity: equal twins exist
         # the assigned value is in the op's closure: recover it from the description by re-reading after the call
         wit = {'text': text, 'op': op.desc}
         try:
